@@ -8,6 +8,7 @@ from .constraints import ConstraintComponent
 from .consts import SH, RDF_type, RDFS_subClassOf, SH_parameter, SH_select, SH_SPARQLTargetType
 from .errors import ConstraintLoadError, ShapeLoadError
 from .helper import get_query_helper_cls
+from .helper.sparql_query_helper import query_with_shapes_graph_text
 from .parameter import SHACLParameter
 from .pytypes import GraphLike, SHACLExecutor
 
@@ -153,7 +154,7 @@ class BoundSPARQLTargetType(BoundSHACLTargetType):
         # init_binds, sparql_text = qh.pre_bind_variables(self.target_type.node, extravars=bind_vals.keys())
         # init_binds.update(bind_vals)
         sparql_text = qh.apply_prefixes(qh.select_text)
-        results = data_graph.query(sparql_text, initBindings=bind_vals)
+        results = query_with_shapes_graph_text(data_graph, sparql_text, bind_vals)
         return results
 
 
